@@ -193,6 +193,11 @@ func (c *channel) enqueue(req request, responseChan chan<- response, streaming b
 		c.routeResponse(req.msg.Metadata.MessageID, response{nid: c.node.ID(), err: req.ctx.Err()})
 		return
 	case c.sendQ <- req:
+		// With a send buffer the request can get into the queue although the node
+		// is closed, after the sender has emptied the queue for the last time.
+		if c.parentCtx.Err() != nil {
+			c.routeResponse(req.msg.Metadata.MessageID, response{nid: c.node.ID(), err: fmt.Errorf("channel closed")})
+		}
 	}
 }
 
@@ -266,7 +271,16 @@ func (c *channel) sender() {
 	for {
 		select {
 		case <-c.parentCtx.Done():
-			return
+			// The node is closed. With a send buffer (WithSendBufferSize) there can
+			// be requests left in the queue; answer them, their callers are waiting.
+			for {
+				select {
+				case left := <-c.sendQ:
+					c.routeResponse(left.msg.Metadata.MessageID, response{nid: c.node.ID(), err: fmt.Errorf("channel closed")})
+				default:
+					return
+				}
+			}
 		case req = <-c.sendQ:
 		}
 		// try to connect to the node if previous attempts
